@@ -176,7 +176,7 @@ func Convert(graph gdbi.GraphInterface, dataType gdbi.DataType, markTypes map[st
 			case gdbi.EdgeData:
 				var ee *gripql.Edge
 				if !v.Loaded {
-					ee = graph.GetEdge(ee.Gid, true).ToEdge()
+					ee = graph.GetEdge(v.ID, true).ToEdge()
 				} else {
 					ee = v.ToEdge()
 				}
